@@ -352,7 +352,14 @@ def seq_method(run, s, attr, args, kwargs, node):
     ty, t = s.ty, s.t
     if attr == "append":
         v = run.coerce(args[0], ty.elem)
-        return NONE, Val(ty, z3.Concat(t, z3.Unit(v.t)))
+        new = z3.Concat(t, z3.Unit(v.t))
+        if ty.elem is TStr and not run.spec:
+            # "".join(xs + [x]) == "".join(xs) + x   (instance of the defining equation of str.join, A-PY)
+            e = z3.StringVal("")
+            fact = ops.str_join(e, new) == z3.Concat(ops.str_join(e, t), v.t)
+            run.pc.append(fact)
+            run.solver_add(fact)
+        return NONE, Val(ty, new)
     if attr == "extend":
         o = args[0]
         if isinstance(o, VTuple):
